@@ -74,9 +74,12 @@ Definition diag_shell (c : shell_case) : Z :=
 Definition chk_shell (c : shell_case) : bool := diag_shell c =? -1.
 
 (* end of run: max_failures, all polls of the run, observed outcome (Some t = ValueError naming t) *)
-Definition end_case := (nat * list poll_in * option Z)%type.
+Definition end_case := (nat * list poll_in * option Z * nat)%type.
+(* outcome of the run and the number of failed trials TuningStatus reports, against tuner_end / num_failed of the
+   accumulated done dict (the statement of c13_limit_ground_truth is about exactly these) *)
 Definition chk_end (c : end_case) : bool :=
-  let '(mf, polls, out) := c in opt_eqb Z.eqb (tuner_end mf polls) out.
+  let '(mf, polls, out, nf) := c in
+  opt_eqb Z.eqb (tuner_end mf polls) out && Nat.eqb (num_failed (accumulate (map poll_done polls))) nf.
 """
 
 KINDS = [
@@ -1119,10 +1122,11 @@ def _run(ctx, replay):
                     last[t] = fin
         # the model's failure count is that of the accumulated done dict; the tuner counts in TuningStatus (which also
         # sees a failed trial that is running again): compare the end of the run only when the two counts agree
-        if sum(1 for v in last.values() if v == "failed") == res["num_failed"]:
+        if not any(was for (_, was) in res["resumed"]) and (out is None or named is not None):
             pl = [coq_poll(p, with_calls=False) for p in res["polls"]]
-            ends_coq.append("(%s, %s, %s)" % (natlit(spec["max_failures"]), lst(pl) if pl else "(@nil poll_in)",
-                                              "None" if named is None else "(Some %s)" % zlit(named)))
+            ends_coq.append("(%s, %s, %s, %s)" % (natlit(spec["max_failures"]), lst(pl) if pl else "(@nil poll_in)",
+                                                  "None" if named is None else "(Some %s)" % zlit(named),
+                                                  natlit(res["num_failed"])))
             ends_meta.append(dict(part="B", spec=spec, done=[(t, last[t]) for t in order], outcome=out))
         else:
             ctx.h("B_end_not_compared_counts_differ", 1)
